@@ -36,7 +36,7 @@ def gen_network(rng, kind):
     pool = [s for s in netgen.gas_pool() + netgen.ice_pool("#") if s.comp and all(e in atoms for e, _ in s.comp)
             and not s.name.startswith(("o", "p"))]
     rng.shuffle(pool)
-    chosen = pool[: rng.randint(3, 10)]
+    chosen = pool[: rng.choice([rng.randint(3, 10), rng.randint(3, 10), rng.randint(12, 30)])]
     species = [netgen.mk([(a, 1)]) for a in atoms] + [s for s in chosen if s.name not in atoms]
     if rng.random() < 0.7:
         species.append(netgen.electron("e-"))
@@ -83,6 +83,131 @@ def parse_renorm(path, backend):
     return mat, fac
 
 
+def helpers_check(chk, rd, path, truth, show, kind):
+    """InitRenorm takes `Hnuclei` from the library's own GetHNuclei, and the property speaks about the element totals the
+    library reports: GetElementAbund must be the count-weighted sum over *all* species, GetHNuclei its hydrogen branch."""
+    phys = next((path / "src" / f for f in ("naunet_physics.cpp", "naunet_physics.cu") if (path / "src" / f).exists()), None)
+    if phys is None:
+        return True
+    text = phys.read_text()
+    try:
+        body = cparse.function_body(text, "GetElementAbund")
+        hbody = "".join(cparse.function_body(text, "GetHNuclei").split())
+    except cparse.CParseError as e:
+        chk.violation({"kind": "helper-unreadable"}, f"GetElementAbund / GetHNuclei not readable: {e}", input=show)
+        return False
+    found = {}
+    for m in re.finditer(r"if\s*\(\s*elemidx\s*==\s*(IDX_ELEM_\w+)\s*\)\s*\{\s*return([^;]*);", body, re.S):
+        try:
+            found[m.group(1)] = poly_of_text(" ".join(m.group(2).split()))
+        except (cparse.CParseError, ZeroDivisionError):
+            return True       # grain species with mass 0 etc.: the renorm oracle reports those
+    for en, pgot in found.items():
+        el = en[len("IDX_ELEM_"):]
+        if el == "GRAIN":
+            continue
+        want = Poly()
+        for a, slot in rd.idx.items():
+            sp = truth.get(a[4:])
+            if sp is not None and sp.count(el):
+                want = want + Poly.const(sp.count(el)) * Poly.atom(f"y[{a}]")
+        if pgot != want:
+            chk.violation({"kind": "element-total-helper", "net": kind},
+                          f"GetElementAbund({en}) is not the count-weighted sum of the abundances", input=show,
+                          expected=want.canon(), observed=pgot.canon())
+            return False
+    if "IDX_ELEM_H" in found and "returnGetElementAbund(y,IDX_ELEM_H);" not in hbody:
+        chk.violation({"kind": "hnuclei-helper", "net": kind}, "GetHNuclei is not GetElementAbund(y, IDX_ELEM_H)", input=show, body=hbody[:200])
+        return False
+    return True
+
+
+def compiled_check(chk, rng, jobs, tier):
+    """end to end through the generated library: Naunet::SetReferenceAbund + Naunet::Renorm (InitRenorm, the library's own
+    linear solve, RenormAbundance, GetHNuclei) compiled against the shim and run on abundance vectors"""
+    from concurrent.futures import ThreadPoolExecutor
+    import math
+
+    def build(job):
+        n, b, path, truth, show = job
+        exe = path / "c16"
+        ok, err = cbuild.build(path, ROOT / "shim" / "c16_driver.cpp", exe, b, sanitize=(tier == "thorough"))
+        return ok, err, exe
+
+    with ThreadPoolExecutor(4) as ex:
+        built = list(ex.map(build, jobs))
+    for (n, b, path, truth, show), (ok, err, exe) in zip(jobs, built):
+        if not ok:
+            chk.violation({"kind": "does-not-compile", "backend": b}, f"rendered {b} sources do not compile against the shim",
+                          input=show, error=err[-1200:])
+            continue
+        rd = Rendered(path, b)
+        aliases = sorted((k for k in rd.idx if k != "IDX_TGAS"), key=lambda k: rd.idx[k])
+        elems = sorted(rd.elem_idx, key=lambda k: rd.elem_idx[k])
+        if "IDX_ELEM_H" not in rd.elem_idx:
+            continue
+        sp = [truth.get(a[4:]) for a in aliases]
+        if any(x is None for x in sp):
+            continue
+
+        def totals(vec):
+            return {e: sum(x.count(e[len("IDX_ELEM_"):]) * v for x, v in zip(sp, vec)) for e in elems}
+        cases, lines = [], []
+        for trial in range(6 if tier == "quick" else 40):
+            ab = [rng.choice([1.0, 1e-4, 2e4]) * rng.uniform(0.1, 10.0) * 10 ** rng.randint(-6, 0) for _ in aliases]
+            mode = ["ratios", "identity", "other-vector"][trial % 3]
+            if mode == "ratios":
+                opt, ref = 0, [rng.uniform(0.5, 2.0) * 10 ** rng.randint(-5, 0) for _ in elems]
+                want = {e: ref[i] / ref[rd.elem_idx["IDX_ELEM_H"]] for i, e in enumerate(elems)}
+            else:
+                opt = 1
+                ref = list(ab) if mode == "identity" else [rng.uniform(0.1, 10.0) * 10 ** rng.randint(-6, 0) for _ in aliases]
+                t = totals(ref)
+                want = {e: t[e] / t["IDX_ELEM_H"] for e in elems}
+                ref = ref + [0.0] * (rd.neqns - len(ref))
+            ab_full = ab + [100.0] * (rd.neqns - len(ab))
+            cases.append((mode, ab, want))
+            lines.append(" ".join([str(opt), str(len(ref))] + [repr(float(x)) for x in ref] + [repr(float(x)) for x in ab_full]))
+        r = subprocess.run([str(exe)], input="\n".join(lines) + "\n", capture_output=True, text=True, cwd=str(path), timeout=600)
+        outs = r.stdout.strip().split("\n")
+        if r.returncode != 0 or len(outs) != len(cases):
+            chk.violation({"kind": "driver-crash", "backend": b}, f"compiled Renorm crashed (rc={r.returncode})", input=show,
+                          stderr=r.stderr[-800:])
+            continue
+        for (mode, ab, want), line in zip(cases, outs):
+            left, right = line.split("|")
+            f = left.split()
+            flag, new = int(f[0]), [float(x) for x in f[1:1 + len(aliases)]]
+            lib = [float(x) for x in right.split()]
+            chk.count(("compiled", n, b, mode, ab[0]), nontrivial=True)
+            chk.hist[f"compiled:{b}:{mode}"] += 1
+            inp = {**show, "backend": b, "mode": mode, "abundances": dict(zip(aliases, ab)), "wanted_ratio_to_H": want}
+            if flag != 0 or not all(math.isfinite(x) for x in new):
+                chk.violation({"kind": "compiled-renorm-failed", "backend": b}, f"Naunet::Renorm returned {flag} / non-finite abundances", input=inp)
+                break
+            t = totals(new)
+            bad = [e for e in elems if e != "IDX_ELEM_GRAIN" and t["IDX_ELEM_H"] > 0 and
+                   abs(t[e] / t["IDX_ELEM_H"] - want[e]) > 1e-8 * max(abs(want[e]), 1e-300)]
+            if bad:
+                chk.violation({"kind": "compiled-ratio-not-restored", "backend": b},
+                              f"after Naunet::Renorm the ratio of {bad[0][9:]} to H nuclei is {t[bad[0]] / t['IDX_ELEM_H']!r}, the reference is {want[bad[0]]!r}",
+                              input=inp, after=dict(zip(aliases, new)))
+                break
+            libbad = [e for e, v in zip(elems, lib) if abs(v - t[e]) > 1e-9 * max(abs(t[e]), 1e-300)]
+            if libbad:
+                chk.violation({"kind": "element-total-helper", "backend": b}, f"GetElementAbund({libbad[0]}) differs from the count-weighted sum",
+                              input=inp)
+                break
+            for a, x, o, y in zip(aliases, sp, ab, new):
+                if x.kind == "electron" and y != o:
+                    chk.violation({"kind": "electron-changed", "backend": b}, "electron abundance changed by Naunet::Renorm", input=inp)
+                    break
+            if mode == "identity" and any(abs(y - o) > 1e-9 * abs(o) for o, y in zip(ab, new)):
+                chk.violation({"kind": "not-identity", "backend": b}, "ratios already match but Naunet::Renorm changed the abundances",
+                              input=inp, after=dict(zip(aliases, new)))
+                break
+
+
 def solve_exact(A, b):
     n = len(b)
     M = [row[:] + [bi] for row, bi in zip(A, b)]
@@ -104,7 +229,7 @@ def run(argv):
     chk.prove()
     rng = chk.rng
     nnets = 8 if tier == "quick" else 60
-    reqs, pend = [], []
+    reqs, pend, compiled_jobs = [], [], []
     kinds = ["plain"] * 5 + ["grain", "nonatomic", "noelement", "plain"]
     for n in range(nnets):
         kind = kinds[n % len(kinds)] if n >= 3 else ["grain", "nonatomic", "noelement"][n]   # the finding witnesses always first
@@ -144,7 +269,7 @@ def run(argv):
             if set(mat) != {(i, j) for i in elems for j in elems}:
                 chk.violation({"kind": "matrix-shape", "net": kind}, "InitRenorm does not assign every element pair", input=show)
                 break
-            ok = oracle(chk, rng, rd, elems, mpoly, fpoly, truth, show, kind, b)
+            ok = helpers_check(chk, rd, path, truth, show, kind) and oracle(chk, rng, rd, elems, mpoly, fpoly, truth, show, kind, b)
             if ok and b == "dense":
                 # model request from naunet's own counts / masses (previous stage)
                 sp = net.species
@@ -155,6 +280,11 @@ def run(argv):
                 pend.append((show, rd, elems, mpoly, fpoly, [f"IDX_{s.alias}" for s in sp]))
         if n < 3:
             chk.sample(show)
+        if kind == "plain" and len(compiled_jobs) < (4 if tier == "quick" else 12):
+            for b in ("dense", "rosenbrock4"):
+                if (chk.scratch / f"n{n}-{b}" / "src").exists():
+                    compiled_jobs.append((n, b, chk.scratch / f"n{n}-{b}", truth, show))
+    compiled_check(chk, rng, compiled_jobs, tier)
     if getattr(chk, "lean_ok", False) and reqs:
         try:
             answers = lean_driver(reqs)
